@@ -39,7 +39,7 @@ let below n = Int64.to_int (Int64.unsigned_rem (sm_next ()) (Int64.of_int n))
 
 let print_model nx ny nz px py pz =
   let y = { lnx = nat_of_int nx; lny = nat_of_int ny; lnz = nat_of_int nz; lpx = px <> 0; lpy = py <> 0; lpz = pz <> 0 } in
-  let g = make_graph y in
+  let g = make_graph true y in
   Printf.printf "graph %d %d %d %d %d %d %d\n" nx ny nz px py pz (list_length g);
   List.iteri
     (fun i t ->
@@ -49,7 +49,7 @@ let print_model nx ny nz px py pz =
     g;
   List.iteri
     (fun i sl -> Printf.printf "slots %d%s\n" i (String.concat "" (List.map (fun o -> " " ^ opt_s o) sl)))
-    (make_slots y);
+    (make_slots true y);
   print_endline "end"
 
 (* ---------------------------------------------------------------- real table *)
